@@ -281,6 +281,7 @@ def r7(ctx):
 
 
 def run(ctx):
+    scan_rule(ctx, "C18")
     r7(ctx)
     r1(ctx)
     r2(ctx)
